@@ -95,7 +95,22 @@ func NewUniverse(r *rand.Rand, o Opts) *Universe {
 			l.ID = fmt.Sprintf("hand-made-id-%d", i)
 		}
 		if o.ShareKeys && i > 0 && r.IntN(2) == 0 {
-			l.Key = u.Logs[r.IntN(i)].Key
+			other := u.Logs[r.IntN(i)]
+			l.Key = other.Key
+			if r.IntN(2) == 0 {
+				// numbered shards: this origin strictly extends the other log's origin (".../1" vs ".../10")
+				l.Origin = other.Origin + []string{"0", "/ci", "-2", " b"}[r.IntN(4)]
+				for dup := true; dup; {
+					dup = false
+					for _, e := range u.Logs {
+						if e.Origin == l.Origin {
+							dup = true
+							l.Origin += "1"
+						}
+					}
+				}
+				l.ID = refnote.LogID(l.Origin)
+			}
 		} else {
 			name := fmt.Sprintf("logkey%d.example", i)
 			if o.SameKeyNames && i > 0 && r.IntN(2) == 0 {
